@@ -133,11 +133,14 @@ def main():
     impl_vs_spec = 0
     model_vs_impl = 0
     model_vs_spec = 0
+    out_of_hypothesis = 0
     first_div = None
     classes = {}
     for i, cs in enumerate(cases):
         for prof, m in models.items():
-            if not core.admits(spec[i], m[i]) or m[i] in ("OOB", "UB") or "OOB" in m[i].split(";") or "UB" in m[i].split(";"):
+            if pd.skip_model_ub and "UB" in m[i] and "OOB" not in m[i]:
+                continue
+            if not core.admits(spec[i], m[i]) or "OOB" in m[i] or (("UB" in m[i]) and not pd.ub_is_known):
                 model_vs_spec += 1
                 if len(nofail) < 5:
                     nofail.append({"kind": "model-violates-spec", "case": cs, "model": m[i], "spec": spec[i], "profile": prof})
@@ -150,6 +153,8 @@ def main():
             extra = pd.oracle(cs, a, c)
             if extra:
                 bad = True
+            if pd.ub_is_known and "UB" in b:
+                bad = False      # handled below as (known) undefined-behaviour finding
             if bad:
                 kf = pd.match_known(known, cs, a, c)
                 if kf:
@@ -159,6 +164,18 @@ def main():
                 if len(violations) < 20:
                     violations.append({"property": prop, "case": cs, "config": c, "impl": a, "model": b, "spec": spec[i],
                                        "why": extra or "the real code's outcome is not admitted by the specification"})
+            elif pd.ub_is_known and "UB" in b:
+                kf = next((k for k in known if k.get("model_ub")), None)
+                if kf:
+                    known_hits[kf["id"]] = kf
+                    out_of_hypothesis += 1
+                else:
+                    impl_vs_spec += 1
+                    if len(violations) < 20:
+                        violations.append({"property": prop, "case": cs, "config": c, "impl": a, "model": b,
+                                           "why": "the code reads an enum-typed field holding an undeclared value (undefined behaviour: results depend on the optimiser)"})
+            elif pd.skip_model_ub and "UB" in b:
+                out_of_hypothesis += 1
             elif pd.canon(a) != pd.canon(b):
                 model_vs_impl += 1
                 if first_div is None:
@@ -184,6 +201,8 @@ def main():
         base = configs[0]
         for c in configs[1:]:
             for i, (a, b) in enumerate(zip(impls[base], impls[c])):
+                if pd.ub_is_known and any("UB" in m[i] for m in models.values()):
+                    continue
                 if pd.canon(a) != pd.canon(b):
                     kf = pd.match_known(known, cases[i], a, c)
                     if kf:
@@ -264,7 +283,7 @@ def main():
             "correspondence": {
                 "cases": len(cases), "configs": configs, "impl_vs_spec_failures": impl_vs_spec,
                 "model_vs_impl_divergences": model_vs_impl, "model_vs_spec_failures": model_vs_spec,
-                "impl_outcome_classes": classes, "block_hashing": blk, "poison_rerun": pd.poison,
+                "out_of_hypothesis_cases": out_of_hypothesis, "impl_outcome_classes": classes, "block_hashing": blk, "poison_rerun": pd.poison,
             },
             "known_findings_hit": sorted(known_hits.keys()),
             "timing": timing,
